@@ -352,12 +352,12 @@ class FetchNoCrash(_c04.FetchShape):
         return uniq(m)
 
 
-from c16_returns import Returns  # noqa: E402  (wall-clock bound in a child interpreter)
+from c16_returns import Returns, ExtractOrder  # noqa: E402  (wall-clock bound in a child interpreter)
 from c15 import ValidateLines  # noqa: E402  (definition.validate / try_tokenize on entry-field text: blank-only, multi-line, unclosed quotes)
 
 SPEC = {
     "clusters": ["Parse", "Tok", "Conv", "Fetch", "Extract"],
-    "streams": [Returns, ValidateLines, ParseSoup, ArgSoup, OffRegionSoup, ScanNoCrash, ConverterValues, TextConverterValues, FetchNoCrash],
+    "streams": [Returns, ExtractOrder, ValidateLines, ParseSoup, ArgSoup, OffRegionSoup, ScanNoCrash, ConverterValues, TextConverterValues, FetchNoCrash],
     "match_finding": match_finding,
     "rule": "PHIL-biased token soup and 1-2 mutations (delete/duplicate/transpose/truncate/insert) of generated documents into freephil.parse "
             "and into argument_interpreter.process_arg; observation = outcome class (ok / RuntimeError / Sorry / other:<Class>); the model's "
